@@ -361,5 +361,8 @@ def run(ctx, rep):
                     ok = True
                     why = "the enqueued value is the result of brine.dump for this call"
                 rep.ob("R12.6", "Connection send layer: what is enqueued is an encoded message of the caller", ok, why, ctx.loc(a))
+    # what is handed to the transport is the encoding of this very message: the encoder works on a buffer of its own call (a
+    # buffer kept per thread is shared with a send re-entered on that thread while the outer message is being encoded)
+    K.share(ctx, rep, "c04", lambda o: o.rule == "R04.2" and "output buffer" in o.key, "R12.6", floor=1)
     from . import hygiene as H
     H.no_lock_across_send(ctx, rep, "R12.8", K.CONN, {"_send", "_send_raw", "_async_request", "async_request", "sync_request"})
